@@ -748,9 +748,15 @@ impl<'a, 'ast> Typecheck<'a, 'ast> {
                         TypeError::Message("Invalid builtin type for operator".to_string())
                     })?;
                     let prim_type = self.subs.builtin_type(builtin_type);
-                    let return_type = match &op_name[1 + op_type.len()..] {
-                        "+" | "-" | "*" | "/" => prim_type.clone(),
-                        "==" | "<" => self.bool(),
+                    // Only the operators which the compiler has an instruction for may be
+                    // accepted here
+                    let return_type = match &*op_name {
+                        "#Int+" | "#Int-" | "#Int*" | "#Int/" | "#Byte+" | "#Byte-" | "#Byte*"
+                        | "#Byte/" | "#Float+" | "#Float-" | "#Float*" | "#Float/" => {
+                            prim_type.clone()
+                        }
+                        "#Int==" | "#Int<" | "#Char==" | "#Char<" | "#Byte==" | "#Byte<"
+                        | "#Float==" | "#Float<" => self.bool(),
                         _ => return Err(TypeError::UndefinedVariable(op.value.name.clone())),
                     };
                     ModType::rigid(self.subs.function(
